@@ -106,12 +106,13 @@ Definition known_enum_arith (p : program) : bool :=
                         | EUn _ (UNeg | UPos | UInv) a | EAbs _ a => is_enum vars a
                         | _ => false end) p.
 
-(* literals: a single-line string whose text both begins and ends with two quote characters (written with escaped
-   quotes) has the same token text as a triple-quoted string; ValueObj::from_str (ty/value.rs) reads it as the latter.
-   The unambiguous cases (one escaped quote alone, two escaped quotes only at the start or only at the end) were
-   repaired; this one needs the lexer to keep the kind of the literal. *)
+(* literals: ValueObj::from_str (ty/value.rs) removes the delimiters of a string literal from the token text, in which
+   the lexer has already replaced escape sequences; the parser rebuilds interpolation parts with mixed delimiters.
+   A text that begins or ends with two quote characters (written with escapes), or consists of one quote character, is
+   indistinguishable from a triple-quoted delimiter and loses its quotes.  Repairing it needs the lexer/parser to keep
+   the kind of the literal (a local repair in from_str breaks string interpolation: tried, exec_interpolation fails). *)
 Definition starts_2q (s : list Z) : bool := match s with 34 :: 34 :: _ => true | _ => false end.
 Definition known_quote_ambiguity : program -> bool :=
   prog_exists (fun e => match e with
-                        | ELit _ (LStr s) => starts_2q s && starts_2q (rev s) && (4 <=? Z.of_nat (length s))
+                        | ELit _ (LStr s) => starts_2q s || starts_2q (rev s) || zs_eqb s [34]
                         | _ => false end).
